@@ -64,7 +64,7 @@ def run(ctx):
         full.append(P.two_runs("KdqTreeBatch", p, p, items, s, "Equal", feed_b=lambda d, x, t, srt=srt: d.update(srt(x, t)), pre_b=srt, extra={"order": "asc"}))
     # kdq-tree with a binding minimum cell size (cutpoint_proportion_lbound well above its tiny default, data on a scale of hundreds, deep trees):
     # the cell-size bound is a property of the FEATURES' ranges, whatever rows come first
-    for i in range(3 if q else 20):
+    for i in range(9 if q else 30):
         p = P.default_params("KdqTreeBatch", rng)
         p.update(count_ubound=rng.choice([3, 6]), cutpoint_proportion_lbound=rng.choice([0.05, 0.125, 0.25]))
         dd = rng.choice([2, 3])
